@@ -22,22 +22,23 @@ type W struct {
 
 // Profile selects alphabets and the action mix of a state-machine check.
 type Profile struct {
-	Name         string
-	Colls        []string
-	IndexFields  []string
-	Doc          gen.DocCfg
-	Weights      []W
-	GenIds       bool // some documents are inserted without _id
-	IdPool       int
-	BadIds       bool // malformed / duplicate / upper-case ids
-	IdRewrite    bool // updates may try to change _id
-	BadDocs      bool // updates may produce invalid documents (_expiresAt non-time)
-	Crit         gen.CritEnv
-	SortFields   []string
-	MaxDocs      int  // soft cap on documents per collection
-	NoWindowBulk bool // bulk writes never carry skip/limit
-	MissingColl  int  // 1/MissingColl of the operations target a possibly missing collection (0 = alphabet choice only)
-	FaultRate    int  // 1/FaultRate of the operations run with one failing store call (0 = never)
+	Name          string
+	Colls         []string
+	IndexFields   []string
+	Doc           gen.DocCfg
+	Weights       []W
+	GenIds        bool // some documents are inserted without _id
+	IdPool        int
+	BadIds        bool // malformed / duplicate / upper-case ids
+	IdRewrite     bool // updates may try to change _id
+	BadDocs       bool // updates may produce invalid documents (_expiresAt non-time)
+	Crit          gen.CritEnv
+	SortFields    []string
+	MaxDocs       int  // soft cap on documents per collection
+	NoWindowBulk  bool // bulk writes never carry skip/limit
+	MissingColl   int  // 1/MissingColl of the operations target a possibly missing collection (0 = alphabet choice only)
+	FaultRate     int  // 1/FaultRate of the operations run with one failing store call (0 = never)
+	UpdBelowIndex bool // updaters sometimes write a path below an indexed field (n.a while n is indexed)
 }
 
 func (p *Profile) pickKind(t *rapid.T) string {
@@ -195,7 +196,13 @@ func (p *Profile) updField(t *rapid.T, s *Session) string {
 			}
 		}
 		if len(hot) > 0 {
-			return rapid.SampledFrom(hot).Draw(t, "updfield-hot")
+			f := rapid.SampledFrom(hot).Draw(t, "updfield-hot")
+			if p.UpdBelowIndex && (f == "n" || f == "x") && rapid.IntRange(0, 2).Draw(t, "upd-below-index") == 0 {
+				// a path below the indexed field: the value under the index changes although the
+				// update never names the field itself
+				return f + ".a"
+			}
+			return f
 		}
 	}
 	return rapid.SampledFrom(updFields).Draw(t, "updfield")
